@@ -178,10 +178,43 @@ def align_numbers(a_line, b_line):
     return " ".join(oa), " ".join(ob)
 
 
+def sort_numbers(line):
+    """every dual number printed on the line with its variables in NAME order (Hessian permuted accordingly): no
+    property determines the internal order of a result's variable list - only the derivative per name"""
+    t = line.split()
+    out = []
+    i = 0
+    while i < len(t):
+        p = _parse_num(t, i) if t[i] in ("D", "D2") else None
+        if p:
+            names = p[2]
+            order = sorted(range(len(names)), key=lambda k: names[k])
+            v = len(names)
+            if p[0] == "D":
+                out += ["D", p[1], "v%d" % v, "d%d" % v]
+                for k in order:
+                    out += [names[k], p[3][k]]
+            else:
+                out += ["D2", p[1], "v%d" % v, "d%d" % v, "r%d" % v, "c" + "-".join([str(v)] * v)]
+                for k in order:
+                    out += [names[k], p[3][k]]
+                out.append("|")
+                for a in order:
+                    for b in order:
+                        out.append(p[4][a][b])
+            i = p[5]
+        else:
+            out.append(t[i])
+            i += 1
+    return " ".join(out)
+
+
 def canon_pair(cfg, toks, a, b):
     """the by-name view of two answer lines: exact rule - drop zero-derivative variables on each side;
     tolerance rule - align both sides over the union of their variables"""
     if not cfg.semantic_names:
+        if getattr(cfg, "sort_names", False):
+            return sort_numbers(a), sort_numbers(b)
         return a, b
     if cfg.mode_for(toks) == "close":
         return align_numbers(a, b)
